@@ -11,7 +11,17 @@ class CallbackError(Exception):
     pass
 
 
-def cb(item, *sketches, logdir=None, die_item=None):
+ORDER = {"CountMinLinear": 0, "CountMinLog16": 0, "CountMinLog8": 0, "HeavyHitters": 1, "HyperLogLog": 2}
+
+
+def cb(item, *sketches, logdir=None, die_item=None, tag=None, expect=None):
+    # the documented contract: the sketches arrive in alphabetical order cms, hh, hll, and the
+    # keyword arguments given to parallel_add are passed through
+    kinds = [ORDER.get(type(s).__name__, 9) for s in sketches]
+    if kinds != sorted(kinds) or len(set(kinds)) != len(kinds) or (expect is not None and len(sketches) != expect):
+        raise CallbackError("sketches passed as %s" % [type(s).__name__ for s in sketches])
+    if tag != "tag-%d" % len(sketches):
+        raise CallbackError("keyword argument tag=%r not passed through" % (tag,))
     if CTL is not None:
         sched, die_at, counts = CTL
         import fakemp
